@@ -1,14 +1,16 @@
 #!/bin/sh
-# Build the checking environment offline: a venv layered over /venv (which has mpmath's
-# own deps and the editable install of /repo) plus z3/cvc5 from the offline wheelhouse.
+# Build the checking environment offline: a venv with z3 from the offline wheelhouse.  mpmath itself is imported from
+# /repo's working tree (sys.path), never installed.  CPython 3.10 (pyenv, part of this image) is preferred: CPython >= 3.11
+# mmap()s/munmap()s a 16 KB data-stack chunk whenever the (deeply recursive) interpreter crosses a chunk boundary, which
+# costs ~40% system time and scales badly over 16 worker processes; 3.10 does not.  Falls back to /venv's python.
 set -e
 cd "$(dirname "$0")"
-if [ ! -x .venv/bin/python ] || ! .venv/bin/python -c "import z3" 2>/dev/null; then
+PY=/root/.pyenv/versions/3.10.13/bin/python
+[ -x "$PY" ] || PY=/venv/bin/python
+if [ ! -x .venv/bin/python ] || ! .venv/bin/python -c "import z3" 2>/dev/null || [ "$(cat .venv/.base 2>/dev/null)" != "$PY" ]; then
   rm -rf .venv
-  /venv/bin/python -m venv .venv
-  SP=$(.venv/bin/python -c "import sysconfig; print(sysconfig.get_paths()['purelib'])")
-  echo "import site; site.addsitedir('/venv/lib/python3.12/site-packages')" > "$SP/_base.pth"
+  "$PY" -m venv .venv
   PIP_NO_INDEX=1 .venv/bin/pip install -q --no-index --find-links /opt/veriftools/wheels z3-solver
-  PIP_NO_INDEX=1 .venv/bin/pip install -q --no-index --find-links /opt/veriftools/wheels cvc5 || true
+  echo "$PY" > .venv/.base
 fi
-.venv/bin/python -c "import z3, mpmath; print('setup ok: z3', z3.get_version_string(), 'mpmath from', mpmath.__file__)"
+.venv/bin/python -c "import sys; sys.path.insert(0, '/repo'); import z3, mpmath; print('setup ok: python', sys.version.split()[0], 'z3', z3.get_version_string(), 'mpmath from', mpmath.__file__)"
